@@ -101,7 +101,7 @@ def run(ctx) -> Report:
 
         def call(h, args):
             try:
-                return ip.call_function(h.func, args, {}, self_obj=H.selfobj)
+                return H.invoke(h, args[0], args[1:])
             except LiftRaise as ex:
                 return ex
 
